@@ -36,6 +36,7 @@ PARTIALS = {
 GENS = {
     "upto": (0, 1, "0..($0).min(4)"),
     "pair": (1, 2, "[$0, $1]"),
+    "range3": (2, 0, "0..3i32"),
 }
 AGGS = {"count": 0, "sum": 1, "min": 2, "max": 3, "not": 4}
 EQ_PRED = 4      # produced by desugaring of repeated variables
@@ -105,6 +106,9 @@ def rust_cond(c, kinds):
         s = "let %s = %s" % (c[1], _subst(FUNS[c[2]][2], [kinds.use(x) for x in c[3]]))
         kinds.val(c[1])
         return s
+    if c[0] == "letc":
+        kinds.val(c[1])
+        return "let %s = %di32" % (c[1], c[2])
     if c[0] == "iflet":
         s = "if let Some(%s) = %s" % (c[1], _subst(PARTIALS[c[2]][2], [kinds.use(x) for x in c[3]]))
         kinds.val(c[1])
@@ -313,7 +317,9 @@ def parse_cond(c, fresh):
         if t[0] == "f":
             return [("let", x, t[1], t[2])]
         if t[0] == "c":
-            raise ParseError("constant let is outside the vocabulary: %r" % c["expr"])
+            if not 0 <= t[1] < 50:
+                raise ParseError("constant let is outside the vocabulary: %r" % c["expr"])
+            return [("letc", x, t[1])]
         return [("iflet", x, "id", [t[1]])]
     if kind == "iflet":
         m = re.fullmatch(r"Some\(([A-Za-z_]\w*)\)", _strip(c["pat"]))
@@ -406,6 +412,8 @@ def coq_cond(c, V):
     if c[0] == "let":
         args = cnats(V(x) for x in c[3])
         return "CBind %s %s %s" % (cnat(V(c[1])), cnat(FUNS[c[2]][0]), args)
+    if c[0] == "letc":
+        return "CBind %s %s []" % (cnat(V(c[1])), cnat(200 + c[2]))
     if c[0] == "iflet":
         fid = ID_PARTIAL if c[2] == "id" else PARTIALS[c[2]][0]
         args = cnats(V(x) for x in c[3])
